@@ -221,11 +221,19 @@ def operation_follows_the_flag_item_as_declared(shape, pos: int, block: bytes, c
     requires(both(0 <= pos, pos + flag_length(shape) <= 1024))
     a = build_accessor(shape, FlagStruct(block), pos)
     s = GeckoBinarySensor(FlagFacade(), "Heating", a)
-    v = a.value
+    # what the table DECLARES the item to be (its own bits only: width from MaxItems / Size, position from BitPos) --
+    # not what the accessor object makes of it, so a neighbouring bit of the same byte can never turn the flag on
+    from contracts.c02_accessor import spec_mask, word_at as spec_word
+    field = spec_word(block, pos, flag_length(shape))
+    if shape["bitpos"] is not None:
+        field = (field & spec_mask(shape)) // (2 ** shape["bitpos"])
     if shape["cls"] == "GeckoBoolStructAccessor":
-        want = v
+        want = field == 1
     else:
-        want = both(v != "", v != "OFF")
+        labels = shape["items"]
+        on_labels = [i for i in range(len(labels)) if labels[i] not in ("", "OFF")]
+        want = either(field >= len(labels), *[field == i for i in on_labels]) if on_labels else field >= len(labels)
+    ensures("accessor-reads-the-declared-field", (a.value == "Unknown") == (field >= len(shape["items"])) if shape["cls"] != "GeckoBoolStructAccessor" else a.value == want)
     ensures("flag-is-on-iff-its-item-says-so", s.is_on == want)
     h = heater("C", cur, real, s, None)
     ensures("heating-flag-on-means-heating", implies(want, h.current_operation == "Heating"))
